@@ -144,6 +144,16 @@ class Acc:
         """prove goal; on sat call on_sat(model)->violation dict | None (None = does not reproduce)."""
         d = self.d
         v = prover.prove(goal, domain=dom, pc=pc, extra=extra)
+        if v.status not in ("sat", "unsat"):
+            # the solver's time limit is wall-clock time: on a loaded machine a query that normally closes can run out;
+            # one more attempt with three times the limit before the query counts as undecided (never counted as proved)
+            t_old = prover.timeout_ms
+            prover.timeout_ms = 3 * t_old
+            try:
+                v = prover.prove(goal, domain=dom, pc=pc, extra=extra)
+                d["extra"]["retried_after_unknown"] = d["extra"].get("retried_after_unknown", 0) + 1
+            finally:
+                prover.timeout_ms = t_old
         d["n_queries"] += 1
         lv = v.level if v.status == "unsat" else v.status
         d["levels"][lv] = d["levels"].get(lv, 0) + 1
